@@ -231,9 +231,18 @@ def run(case):
             ok = _values_equal(obs, h, f, factor)
             if not ok and obs in ("cost_function_value", "goodness_of_fit") and h is not None and f is not None and abs(float(h) - float(f)) < 1e-10:
                 ok = True  # residuals at rounding level (perfect fit): absolute floor
+        facet_obs = obs
+        if not ok and obs == "parameter_errors" and F._minimizer in (None, "iminuit"):
+            # bug model of KF-C03-1 (same root cause as KF-C15-3): with iminuit parameter_errors are MIGRAD's running estimates, which depend on the path of
+            # the minimisation, while the HESSE covariance matrices of the two fits agree
+            try:
+                if _min_equal("parameter_cov_mat", H.parameter_cov_mat, F.parameter_cov_mat, H, F) and np.all(np.abs(np.asarray(h, float)) < 10 * np.abs(np.asarray(f, float)) + 1e-300):
+                    facet_obs = "parameter_errors-migrad-estimate"
+            except Exception:  # noqa
+                pass
         if not ok:
             hist = sorted(read_then.get(obs, ()))
-            raise Violation(f"history-dependent:{obs}", f"{where}: {obs} = {_s(h)} after the history, a fresh fit in the same configuration gives {_s(f)}; "
+            raise Violation(f"history-dependent:{facet_obs}", f"{where}: {obs} = {_s(h)} after the history, a fresh fit in the same configuration gives {_s(f)}; "
                             f"mutators since it was last read: {hist}; configuration: sources {[(s['name'], s['ref'], s.get('axis'), s['kind'], 'rel' if s['relative'] else 'abs', s.get('enabled', True)) for s in cfg.spec['sources']]}, "
                             f"constraints {len(cfg.spec['constraints'])}, fixed {sorted(cfg.spec['fixed'])}, limits {cfg.spec['limits']}, values {cfg.values}, fitted={cfg.fitted}")
         if read_then.get(obs):
@@ -414,11 +423,31 @@ def _min_equal(obs, h, f, H, F):
     e = np.asarray(F.parameter_errors, float)
     e = np.where(np.isfinite(e) & (e > 0), e, 1.0)
     both_nan = np.isnan(h) & np.isnan(f)
+    # numerical second derivatives lose accuracy with the correlation of the parameters (C05: 3-8 % at a condition number of 3e4 of the parameter
+    # correlation matrix): x3 beyond 1e3, not compared beyond 1e4
+    cond_cor = 1.0
+    for X in (F, H):
+        try:
+            C = np.asarray(X.parameter_cov_mat, float)
+            free = np.diag(C) > 0
+            d = np.sqrt(np.diag(C)[free])
+            cond_cor = max(cond_cor, np.linalg.cond(C[np.ix_(free, free)] / np.outer(d, d)) if free.sum() > 1 else 1.0)
+        except Exception:  # noqa
+            pass
+    if not np.isfinite(cond_cor) or cond_cor > 1e4:
+        return True
+    if cond_cor > 1e3:
+        rel *= 3
     if obs == "parameter_errors":
         return bool(np.all((np.abs(h - f) <= rel * e + 1e-300) | both_nan))
     if obs == "parameter_cov_mat":
         return bool(np.all((np.abs(h - f) <= rel * np.outer(e, e) + 1e-300) | both_nan))
-    return bool(np.all((np.abs(h - f) <= 0.03) | (np.isnan(h) & np.isnan(f))))
+    return bool(np.all((np.abs(h - f) <= (0.03 if cond_cor <= 1e3 else 0.1)) | (np.isnan(h) & np.isnan(f))))
+
+
+KNOWN = {
+    "KF-C03-1": lambda sub, case, v: v.facet == "history-dependent:parameter_errors-migrad-estimate",
+}
 
 
 def _replace_data(H, cfg, op, spec0):
